@@ -37,6 +37,7 @@ fn main() {
         "run" => c12::run_main(args.iter().any(|a| a == "--full")),
         "cold" => c12::cold_main(),
         "c12-sweep" => c12::sweep_main(),
+        "c12-plan" => c12::plan_main(args.get(2).and_then(|s| s.parse().ok()).unwrap_or(0), args.get(3).map(|s| s.as_str()).unwrap_or("quick"), seed),
         "c09-chunk" => c09::chunk_main(),
         "c09-exec" => c09::exec_main(),
         "replay" => {
